@@ -581,7 +581,10 @@ def list_time_varying_covariates(model: Model):
     []
 
     """
-    cov_labels = model.datainfo.typeix['covariate'].names
+    try:
+        cov_labels = model.datainfo.typeix['covariate'].names
+    except IndexError:
+        return []
     if len(cov_labels) == 0:
         return []
     else:
